@@ -257,6 +257,24 @@ def spawn_fn(F):
     return c[0] if len(c) == 1 else None
 
 
+def draw_methods(F):
+    """Names of the methods of trait chain::Chain that produce a draw (their result carries the Progress of the draw): draw, expanded_draw today."""
+    cache = F.__dict__.setdefault("_draw_methods", {})
+    if "m" not in cache:
+        names = set()
+        for p_, t in F.traits.items():
+            if path_ends(p_, "chain::Chain"):
+                for it in t.get("items", []):
+                    if it.get("inputs") is not None and "Progress" in str(it.get("output") or ""):
+                        names.add(it["name"])
+        cache["m"] = names or {"draw", "expanded_draw"}
+    return cache["m"]
+
+
+def is_draw_call(F, c):
+    return any(path_ends(c.get("path", ""), "Chain::" + n) for n in draw_methods(F))
+
+
 def worker_body(F):
     """The closure (nested in the spawning function) that runs the draw loop."""
     s = spawn_fn(F)
@@ -267,7 +285,7 @@ def worker_body(F):
         c = []
         for b in K.all_closures_of(F, s.path):
             ib = IN.inlined(F, b, IN.sampler_helper)
-            if ib.calls_to(lambda c: path_ends(c["path"], "Chain::expanded_draw")):
+            if ib.calls_to(lambda c: is_draw_call(F, c)):
                 c.append(ib)
         cache["w"] = c[0] if len(c) == 1 else None
     return cache["w"]
@@ -658,6 +676,55 @@ def r7(F, R):
         R.bad("C10-R7", b.path + ":num_cores", site, "the worker-thread count `%s` is also used elsewhere: %s - results may depend on the number of threads" % (pname, badu))
 
 
+def r9(F, R):
+    R.rule("C10-R9", "what a chain computes does not depend on where its draws go: in the worker, no operation on the chain object (a method of trait Chain on the "
+                     "sampler: it may consume the chain's random stream) is executed or skipped depending on a value obtained from the storage, the trace slot or "
+                     "the progress - within one iteration the conditions on the way to such a call read only the mailbox and the chain's own results")
+    w = worker_body(F)
+    if w is None:
+        R.missing("C10-R9", "worker closure")
+        return
+    loops = w.natural_loops()
+    mutating = set()
+    for p_, tr in F.traits.items():
+        if path_ends(p_, "chain::Chain"):
+            mutating |= {it["name"] for it in tr.get("items", []) if it.get("inputs") and str(it["inputs"][0]).startswith("&mut")}
+    chain_calls = [(bb, t) for bb, t in w.calls() if t["callee"].get("trait") and path_ends(t["callee"]["trait"], "chain::Chain") and t["callee"].get("name") in mutating]
+    if not chain_calls:
+        R.missing("C10-R9", "Chain method calls in the worker")
+        return
+    STORAGE = ("ChainStorage::", "TraceStorage::", "storage::", "ChainProgress::")
+    n = 0
+    for bb, t in chain_calls:
+        inner = [(h, body) for h, body in loops.items() if bb in body]
+        if not inner:
+            continue
+        h, body = max(inner, key=lambda x: len(x[1]))
+        hits, _ex = K.iter_paths(w, h, [bb], within=body)
+        n += 1
+        site = "%s @%s" % (w.path, loc(t["span"]))
+        key = "%s:%s#%d" % (w.path, t["callee"]["name"], n)
+        if hits is None:
+            R.bad("C10-R9", key, site, "too many paths to enumerate")
+            continue
+        sws = sorted({sw for (_tb, cs, _p) in hits for (sw, _v) in cs})
+        tainted = []
+        for sw in sws:
+            sl = w.slice([w.blocks[sw]["term"]["discr"]], control=False)
+            calls = [c for c in sl["calls"] if any(x in strip_generics(c) for x in STORAGE)]
+            tys = [w.local_ty(l) for l in sl["locals"] if "ChainStorage" in w.local_ty(l) or "ChainProgress" in w.local_ty(l)]
+            ups = [u for u in sl.get("upvars", []) if str(u) in ("chain_trace", "progress")]
+            if calls or tys or ups:
+                tainted.append((sw, (calls or tys or ups)[0]))
+        if tainted:
+            sw, what = tainted[0]
+            R.bad("C10-R9", key, site, "Chain::%s is executed or skipped depending on a condition (%s) that reads %s: the chain's random stream and results would "
+                  "depend on the storage configuration" % (t["callee"]["name"], loc(w.blocks[sw]["term"].get("span") or w.span), str(what)[:80]))
+        else:
+            R.ok("C10-R9", key, site, "Chain::%s: %d condition(s) on the way from the loop head, none reads storage / progress state" % (t["callee"]["name"], len(sws)))
+    R.floor("C10-R9", 1)
+
+
 def run(F, R, config=None):
     P = K.positive_facts()
     r1(F, R, P)
@@ -666,6 +733,7 @@ def run(F, R, config=None):
         r3(F, R)
         r5(F, R)
         r7(F, R)
+        r9(F, R)
         # what is recorded must not depend on when control commands arrive: every computed draw is recorded exactly once (shared with C12-R2)
         from . import c12
         w = worker_body(F)
@@ -691,6 +759,6 @@ def features(F):
     return []
 
 
-FEATURE_RULES = {"C10-R2": "parallel", "C10-R3": "parallel", "C10-R5": "parallel", "C10-R6": "parallel", "C10-R7": "parallel"}
+FEATURE_RULES = {"C10-R2": "parallel", "C10-R3": "parallel", "C10-R5": "parallel", "C10-R6": "parallel", "C10-R7": "parallel", "C10-R9": "parallel"}
 CONFIGS = ["all", "default", "nodefault"]
 SELFTEST = True
